@@ -747,8 +747,10 @@ ASMJIT_FAVOR_SPEED Error Assembler::_emit(InstId inst_id, const Operand_& o0, co
       if (isign3 == 0)
         goto EmitX86Op;
 
+      // Only the first operand is encoded (as segment / address-size override prefixes), the remaining operands
+      // of monitor / monitorx (ecx, edx) are implicit registers.
       rm_rel = &o0;
-      if (isign3 == ENC_OPS1(Mem) && is_implicit_mem(o0, Gp::kIdAx))
+      if (is_implicit_mem(o0, Gp::kIdAx) && (o1.is_none() || o1.is_reg()) && (o2.is_none() || o2.is_reg()))
         goto EmitX86OpImplicitMem;
 
       break;
@@ -2739,8 +2741,19 @@ CaseExtMovd:
       goto CaseExtRm;
 
     case InstDB::kEncodingExtRm_ZDI:
-      if (ASMJIT_UNLIKELY(!o2.is_none() && !is_implicit_mem(o2, Gp::kIdDi)))
-        goto InvalidInstruction;
+      if (!o2.is_none()) {
+        if (ASMJIT_UNLIKELY(!is_implicit_mem(o2, Gp::kIdDi)))
+          goto InvalidInstruction;
+
+        // The implicit DS:[zDI] destination was spelled - honour its segment override and its address size
+        // (the segment is overridable and the 67h prefix selects the other DI/EDI/RDI register).
+        rm_info = mem_info_table[o2.as<Mem>().base_and_index_types()];
+        if (ASMJIT_UNLIKELY(rm_info & kX86MemInfo_Index))
+          goto InvalidInstruction;
+
+        writer.emit_segment_override(o2.as<Mem>().segment_id());
+        writer.emit_address_override((rm_info & _address_override_mask()) != 0);
+      }
 
       isign3 &= 0x3F;
       goto CaseExtRm;
@@ -3085,8 +3098,18 @@ CaseVexMri:
       break;
 
     case InstDB::kEncodingVexRm_ZDI:
-      if (ASMJIT_UNLIKELY(!o2.is_none() && !is_implicit_mem(o2, Gp::kIdDi)))
-        goto InvalidInstruction;
+      if (!o2.is_none()) {
+        if (ASMJIT_UNLIKELY(!is_implicit_mem(o2, Gp::kIdDi)))
+          goto InvalidInstruction;
+
+        // The implicit DS:[zDI] destination was spelled - honour its segment override and its address size.
+        rm_info = mem_info_table[o2.as<Mem>().base_and_index_types()];
+        if (ASMJIT_UNLIKELY(rm_info & kX86MemInfo_Index))
+          goto InvalidInstruction;
+
+        writer.emit_segment_override(o2.as<Mem>().segment_id());
+        writer.emit_address_override((rm_info & _address_override_mask()) != 0);
+      }
 
       isign3 &= 0x3F;
       goto CaseVexRm;
